@@ -35,6 +35,7 @@ ASSUMPTIONS = [
 ]
 
 KINDS = ["int", "float", "bool", "str"]
+WRITER_KINDS = KINDS + ["mixed"]  # mixed: numeric column whose integral batches arrive with an integer dtype (per-chunk inference)
 SAFE = ["alpha", "b_eta", "Gamma-3", "x9y", "pep|A", "K.PEPT[+16]IDE.R", "sp|P1|X_HUMAN", "z z", "q;r", "mokapot"]
 HARD_FLOATS = [0.1, 1e-5, 0.005311234567890123, 123456.789, -2.5e-7, 1e22, 3.0, -0.0, 5e-324, 1.7976931348623157e308, 0.3333333333333333]
 
@@ -82,6 +83,7 @@ def _reader_case(draw, tier):
         "chunk": draw(st.integers(1, n + 1)),
         "columns": sub,
         "rename": draw(st.lists(st.integers(0, ncol - 1), unique=True, max_size=ncol)),
+        "rename_kind": draw(st.sampled_from(["suffix", "suffix", "swap", "chain"])),
     }
 
 
@@ -158,6 +160,17 @@ def _cmp_col(got, want, kind, exact, tag):
             require(str(g) == str(w), "value-changed", f"{tag} row {i}: {g!r} != {w!r}")
 
 
+def _rename_map(case):
+    """old -> new names; 'swap' and 'chain' maps are not idempotent (applying them twice gives other names)."""
+    names = [c["name"] for c in case["cols"]]
+    kind = case.get("rename_kind", "suffix")
+    if kind == "swap" and len(names) >= 2:
+        return {names[0]: names[1], names[1]: names[0]}
+    if kind == "chain" and len(names) >= 2:
+        return {names[0]: "old_" + names[0], names[1]: names[0]}
+    return {names[i]: names[i] + "_new" for i in case["rename"]}
+
+
 def _check_reader(case):
     from mokapot import streaming as stm
     from mokapot import tabular_data as td
@@ -176,7 +189,7 @@ def _check_reader(case):
                 text_cols = set(df.columns)
         elif rk == "renamed":
             base, src = _make_reader(case["base"], df, tmp / "t", case["row_group"])
-            cmap = {cols[i]["name"]: cols[i]["name"] + "_new" for i in case["rename"]}
+            cmap = _rename_map(case)
             reader = td.ColumnMappedReader(base, cmap)
             kinds = {cmap.get(k, k): v for k, v in kinds.items()}
             model = {cmap.get(k, k): v for k, v in model.items()}
@@ -204,7 +217,7 @@ def _check_reader(case):
         require(got_names == all_names, "column-names", f"{got_names} != {all_names}")
         columns = case["columns"]
         if columns is not None and rk == "renamed":
-            cm = {cols[i]["name"]: cols[i]["name"] + "_new" for i in case["rename"]}
+            cm = _rename_map(case)
             columns = [cm.get(c, c) for c in columns]
         want_cols = all_names if columns is None else columns
         # ---- whole ----
@@ -244,6 +257,16 @@ def _check_reader(case):
             cat = pd.concat(chunks)
             for c in want_cols:
                 _cmp_col(cat[c].tolist(), whole[c].tolist(), kinds[c], True, f"chunks-vs-whole[{c}]")
+        # history: reading everything (no column list) and then the same request again must give the same table
+        try:
+            guarded(reader.read, sig="read")
+        except Violation:
+            pass  # the computed-column reader rejects columns=None by design
+        again = guarded(reader.read, columns=columns, sig="read")
+        require(list(again.columns) == want_cols and len(again) == n, "reread-differs",
+                f"second whole read: columns {list(again.columns)} / {len(again)} rows, first read {want_cols} / {n} rows")
+        for c in want_cols:
+            _cmp_col(again[c].tolist(), whole[c].tolist(), kinds[c], True, f"reread[{c}]")
     classes = [rk]
     nchunks = len(exp_sizes)
     if columns is not None:
@@ -269,8 +292,9 @@ class WriterExec:
         self.names = [f"w{i}_{k}" for i, k in enumerate(self.kinds)]
         ext = ".parquet" if init["fmt"] == "parquet" else ".tab"
         self.path = Path(tmp) / f"out{ext}"
-        pa_types = {"int": pa.int64(), "float": pa.float64(), "bool": pa.bool_(), "str": pa.string()}
-        np_types = {"int": np.dtype("int64"), "float": np.dtype("float64"), "bool": np.dtype("bool"), "str": np.dtype("object")}
+        pa_types = {"int": pa.int64(), "float": pa.float64(), "bool": pa.bool_(), "str": pa.string(), "mixed": pa.float64()}
+        np_types = {"int": np.dtype("int64"), "float": np.dtype("float64"), "bool": np.dtype("bool"), "str": np.dtype("object"),
+                    "mixed": np.dtype("float64")}
         ctypes = [pa_types[k] for k in self.kinds] if init["fmt"] == "parquet" else [np_types[k] for k in self.kinds]
         self.buffer_type = {"frame": td.TableType.DataFrame, "dicts": td.TableType.Dicts, "records": td.TableType.Records}[init["buffer_kind"]]
         self.writer = td.TabularDataWriter.from_suffix(self.path, self.names, buffer_size=init["buffer_size"],
@@ -286,7 +310,13 @@ class WriterExec:
         data = {}
         np_types = {"int": np.int64, "float": np.float64, "bool": bool, "str": object}
         for j, (nm, k) in enumerate(zip(self.names, self.kinds)):
-            data[nm] = np.array([r[j] for r in rows], dtype=np_types[k])
+            vals = [r[j] for r in rows]
+            if k == "mixed":
+                # a batch that happens to hold only integral values arrives as int64, like a chunk of a text file would
+                dt = np.int64 if vals and all(float(v).is_integer() and abs(v) < 2**53 for v in vals) else np.float64
+                data[nm] = np.array(vals, dtype=dt)
+            else:
+                data[nm] = np.array(vals, dtype=np_types[k])
         return pd.DataFrame(data)
 
     def append(self, rows, how):
@@ -323,7 +353,7 @@ class WriterExec:
         exact = self.init["fmt"] == "parquet"
         for j, (nm, k) in enumerate(zip(self.names, self.kinds)):
             if n:
-                _cmp_col(got[nm].tolist(), [r[j] for r in self.model], k, exact, f"readback[{nm}]")
+                _cmp_col(got[nm].tolist(), [r[j] for r in self.model], "float" if k == "mixed" else k, exact, f"readback[{nm}]")
 
 
 def run_history(ops):
@@ -359,6 +389,8 @@ def _row_strategy(kinds):
             parts.append(st.one_of(st.sampled_from(HARD_FLOATS), st.floats(allow_nan=False, allow_infinity=False)))
         elif k == "bool":
             parts.append(st.booleans())
+        elif k == "mixed":
+            parts.append(st.sampled_from([0.0, 1.0, 2.0, 500.0, 503.25, 504.5, -3.0, 0.125, 7.0]))
         else:
             parts.append(st.sampled_from(SAFE))
     return st.tuples(*parts).map(list)
@@ -384,7 +416,7 @@ def extra(tier, seed, shard, nshards, stats):
 
         @initialize(fmt=st.sampled_from(["tsv", "parquet"]), buffer_size=st.sampled_from([0, 0, 2, 3, 4, 5, 9]),
                     buffer_kind=st.sampled_from(["frame", "dicts", "records"]),
-                    kinds=st.lists(st.sampled_from(KINDS), min_size=1, max_size=4))
+                    kinds=st.lists(st.sampled_from(WRITER_KINDS), min_size=1, max_size=4))
         def init(self, fmt, buffer_size, buffer_kind, kinds):
             counter["n"] += 1
             d = tmp_root / f"m{counter['n']}"
